@@ -247,6 +247,63 @@ func (p *c10) roundTrip(x *res, item val.Item, ctx *runner.Ctx) {
 					map[string]interface{}{"adapter": adapter, "item": it, "read": rd.name, "returned": back})
 			}
 		}
+		p.readPurity(x, adapter, cl, spec.Name, key, it, ctx)
+	}
+}
+
+// readPurity: reads that carry options which narrow THEIR OWN result (AttributesToGet, ProjectionExpression,
+// Select, ConsistentRead, Limit) are followed by plain reads: the stored item is still the one that was written.
+// What the narrowed reads themselves return is not judged (the library does not implement projections).
+func (p *c10) readPurity(x *res, adapter string, cl adapt.Client, table string, key, it val.Item, ctx *runner.Ctx) {
+	one := ""
+	for k := range it {
+		if k != "h" && k != "r" && (one == "" || k < one) {
+			one = k
+		}
+	}
+	if one == "" {
+		return
+	}
+	names := map[string]string{"#p": one}
+	narrowed := []adapt.Op{
+		{Kind: adapt.OpGet, Table: table, Key: key, AttrsToGet: []string{one}},
+		{Kind: adapt.OpGet, Table: table, Key: key, AttrsToGet: []string{"h"}, Consistent: true},
+		{Kind: adapt.OpGet, Table: table, Key: key, Proj: "#p", Names: names},
+		{Kind: adapt.OpGet, Table: table, Key: key, Proj: "h, r"},
+		{Kind: adapt.OpQuery, Table: table, KeyCnd: "h = :h", Values: val.Item{":h": val.Str("k")}, AttrsToGet: []string{one}},
+		{Kind: adapt.OpQuery, Table: table, KeyCnd: "h = :h", Values: val.Item{":h": val.Str("k")}, Proj: "#p", Names: names, Select: "SPECIFIC_ATTRIBUTES"},
+		{Kind: adapt.OpQuery, Table: table, KeyCnd: "h = :h", Values: val.Item{":h": val.Str("k")}, Select: "COUNT", Consistent: true},
+		{Kind: adapt.OpScan, Table: table, AttrsToGet: []string{"r"}},
+		{Kind: adapt.OpScan, Table: table, Proj: "h", Select: "SPECIFIC_ATTRIBUTES", Limit: 1},
+		{Kind: adapt.OpScan, Table: table, Select: "COUNT"},
+		{Kind: adapt.OpBatchGet, Gets: []adapt.BatchEntry{{Table: table, Del: key}}, AttrsToGet: []string{one}},
+		{Kind: adapt.OpBatchGet, Gets: []adapt.BatchEntry{{Table: table, Del: key}}, Proj: "#p", Names: names, Consistent: true},
+	}
+	for i, nop := range narrowed {
+		ctx.Trace("%s narrowed read %s", adapter, nop.String())
+		n := cl.Do(nop)
+		x.r.Evals++
+		x.r.Counters["narrowed_reads"]++
+		if n.Class == adapt.ClsRuntime {
+			x.viol("runtime-panic", n.Site, fmt.Sprintf("[%s] read with options %s: runtime panic at %s: %s", adapter, nop.String(), n.Site, n.Msg), map[string]interface{}{"adapter": adapter, "read": nop})
+			return
+		}
+		// after every narrowed read, one plain read (rotating over the read paths)
+		plain := []adapt.Op{{Kind: adapt.OpGet, Table: table, Key: key}, {Kind: adapt.OpScan, Table: table}, queryOp(table, "", keyCondEq("h", ":h"), nil, val.Item{":h": val.Str("k")}, false, rrCanon)}[i%3]
+		got := cl.Do(plain)
+		x.r.Evals++
+		back := got.Item
+		if plain.Kind != adapt.OpGet && len(got.Items) == 1 {
+			back = got.Items[0]
+		}
+		if got.Class != adapt.ClsOK || !val.ItemsEqual(back, it) {
+			if len(modelQuirkNames(back, it)) > 0 {
+				return // the listed empty-list/map finding, reported by the plain round trip already
+			}
+			x.viol("read-changed-stored-item", adapter+"/"+nop.Kind, fmt.Sprintf("[%s] after the read %s a plain %s returns (class %s) %s; the stored item is %s; differences: %s", adapter, nop.String(), plain.Kind, got.Class, back.Canon(), it.Canon(), diffAttrs(back, it)),
+				map[string]interface{}{"adapter": adapter, "item": it, "narrowed_read": nop, "plain_read": plain.Kind, "returned": back})
+			return
+		}
 	}
 }
 
